@@ -37,9 +37,10 @@ PROVED = ["eg_id_numpy", "ehe_id_numpy", "sn_id_numpy", "bg_id_numpy", "wthh_id_
 #           #index: SAFETY (no KeyError / IndexError on any path), RANGE (everybody gets an id in [0, #units)) and NESTING
 #           (equal ids imply equal hh_id); who else shares an id is not part of it
 #   #partners the same loop under a stronger validity domain (no partnered person is eligible as a child): partners share an id
+#   #children the same under the full unambiguity domain: a childless child under 25 has the id of every co-resident parent
 # A stage contract speaks about internal state, so a refuted stage obligation is a violation only together with
 # a failing input of the whole kernel from the bounded-exhaustive run F; otherwise it is undecided.
-STAGES = ["fg_id_numpy#index", "fg_id_numpy#assign", "fg_id_numpy#partners"]
+STAGES = ["fg_id_numpy#index", "fg_id_numpy#assign", "fg_id_numpy#partners", "fg_id_numpy#children"]
 
 
 def _vc_worker(name):
@@ -279,7 +280,7 @@ def run(tier="quick", seed=0, jobs=16):
     rep = Report("C12", tier, seed, "proof")
     rep.assumptions = [ASSUMPTIONS["T"], "VALID: p_id unique and >= 0; partner/spouse pointers are -1 or an existing p_id other than one's own and symmetric; Einstandspartner share hh_id; fewer than 100 self-sufficient children per Familiengemeinschaft; hh_id, fg_id >= 0",
                        "python ints are mathematical integers; dict / Counter / list modelled as (domain, value) arrays / total map / (array, length)",
-                       "fg_id_numpy as a whole is NOT proved (only the contract of its first loop is): bounded-exhaustive up to " + ("4" if tier == "quick" else "5") + " persons (typed structures up to isomorphism x all row orders)"]
+                       "fg_id_numpy: stage contracts #index, #assign (safety, range, fg within hh, non-partner adults never share), #partners (partners share; VALID: no partnered person is eligible as a child, p_id >= 0), #children (eligible children share with co-resident parents; VALID: parents exist, co-resident parents of an eligible child are partners) are discharged for any number of rows; the full partition is additionally compared with the executable spec bounded-exhaustively up to " + ("4" if tier == "quick" else "5") + " persons (typed structures up to isomorphism x all row orders)"]
     rep.trusted = ["numpy.asarray(list) keeps the elements in order", "enumerate / dict / Counter / list.append semantics as modelled in vt/loopvc.py", "z3 5.1.0 (quantifier instantiation)"]
     # V: proofs
     results = par.pmap(_vc_worker, PROVED + STAGES, jobs)
@@ -290,7 +291,7 @@ def run(tier="quick", seed=0, jobs=16):
     for st, name, res in results:
         if st != "ok":
             raise RuntimeError(res)
-        if name in ("fg_id_numpy#assign", "fg_id_numpy#partners") and "unsupported" not in res and (any(s_.startswith("fg_id_numpy#index") for s_ in stage_skipped) or "fg_id_numpy#index" in lost):
+        if name in ("fg_id_numpy#assign", "fg_id_numpy#partners", "fg_id_numpy#children") and "unsupported" not in res and (any(s_.startswith("fg_id_numpy#index") for s_ in stage_skipped) or "fg_id_numpy#index" in lost):
             # modularity: the VCs of the second stage assume the postcondition of the first; if that was not established
             # in this run, nothing proved from it counts
             res = {"name": name, "unsupported": "its hypothesis, the postcondition of fg_id_numpy#index, was not established in this run"}
